@@ -113,6 +113,27 @@ theorem partitioned_aggregate {α ρ κ : Type} [DecidableEq κ] (agg : List α 
   obtain ⟨key, _, rfl⟩ := hp
   rfl
 
+/-- engine pipeline `.partition_by(k).window(W).aggregate(..)`: the batch handed to `PartitionedAggregate` is the
+concatenation of the windows completed by one call (`window_results.extend(completed)`); regrouping it by key
+yields exactly one result per completed non-empty window, computed from that window alone — for every
+reachable state of every partitioned window kind and any aggregator. -/
+theorem partitioned_window_then_aggregate {ρ : Type} (agg : List Ev → ρ) (pre : List Op) (op : Op) :
+    (∀ d, let out := ((ptumbling d).step ((ptumbling d).final (ptumbling d).init pre) op).2
+      aggregateStage agg out = (out.filter (fun p => p.2 ≠ [])).map (fun p => (p.1, agg p.2))) ∧
+    (∀ n, let out := ((pcount n).step ((pcount n).final (pcount n).init pre) op).2
+      aggregateStage agg out = (out.filter (fun p => p.2 ≠ [])).map (fun p => (p.1, agg p.2))) ∧
+    (∀ g, let out := ((psession g).step ((psession g).final (psession g).init pre) op).2
+      aggregateStage agg out = (out.filter (fun p => p.2 ≠ [])).map (fun p => (p.1, agg p.2))) ∧
+    (∀ a b, let out := ((psliding a b).step ((psliding a b).final (psliding a b).init pre) op).2
+      aggregateStage agg out = (out.filter (fun p => p.2 ≠ [])).map (fun p => (p.1, agg p.2))) ∧
+    (∀ a b, let out := ((pslidingCount a b).step ((pslidingCount a b).final (pslidingCount a b).init pre) op).2
+      aggregateStage agg out = (out.filter (fun p => p.2 ≠ [])).map (fun p => (p.1, agg p.2))) :=
+  ⟨fun d => Varpulis.Window.partitioned_window_then_aggregate (tumbling d) (·.buf) (tumbling_subset d) (tumbling_one d) rfl never agg pre op,
+   fun n => Varpulis.Window.partitioned_window_then_aggregate (count n) (·.buf) (count_subset n) (count_one n) rfl never agg pre op,
+   fun g => Varpulis.Window.partitioned_window_then_aggregate (session g) (·.buf) (session_subset g) (session_one g) rfl dropClosed agg pre op,
+   fun a b => Varpulis.Window.partitioned_window_then_aggregate (sliding a b) (·.evs) (sliding_subset a b) (sliding_one a b) rfl never agg pre op,
+   fun a b => Varpulis.Window.partitioned_window_then_aggregate (slidingCount a b) (·.evs) (slidingCount_subset a b) (slidingCount_one a b) rfl never agg pre op⟩
+
 /-- `Value::to_partition_key` is injective on strings and on integers (values of one type) -/
 theorem partition_key_injective :
     (∀ a b : String, (Val.str a).partitionKey = (Val.str b).partitionKey → a = b) ∧
